@@ -35,6 +35,12 @@ fn main() {
             let Some(p) = props.iter().find(|p| p.id() == id) else { usage() };
             worker_main(p.as_ref(), tier, seed.parse().unwrap_or(0), index.parse().unwrap_or(0), per.parse().unwrap_or(0))
         }
+        Some("--plan") => {
+            // --plan <ID> <case file>
+            let (Some(id), Some(f)) = (args.get(1), args.get(2)) else { usage() };
+            let Some(p) = props.iter().find(|p| p.id() == id) else { usage() };
+            plan_main(p.as_ref(), Path::new(f))
+        }
         Some("--from-fuzz") => {
             // --from-fuzz <target> <artifact> [property]
             let (Some(t), Some(f)) = (args.get(1), args.get(2)) else { usage() };
